@@ -45,6 +45,7 @@ type Node struct {
 	done   chan struct{}
 	mu     sync.Mutex
 	exited bool
+	ran    bool
 	fatal  bool // the daemon called log.Fatal (crash-stop)
 }
 
@@ -147,6 +148,9 @@ func StartNode(cfg NodeConfig, chain *forge.Chain) (*Node, error) {
 
 // Run starts the real sync loop in its own goroutine.
 func (n *Node) Run() {
+	n.mu.Lock()
+	n.ran = true
+	n.mu.Unlock()
 	go func() {
 		defer close(n.done)
 		defer func() {
@@ -161,9 +165,14 @@ func (n *Node) Run() {
 // Stop cancels the daemon cleanly and closes the database.
 func (n *Node) Stop() {
 	n.cancel()
-	select {
-	case <-n.done:
-	case <-time.After(20 * time.Second):
+	n.mu.Lock()
+	ran := n.ran
+	n.mu.Unlock()
+	if ran {
+		select {
+		case <-n.done:
+		case <-time.After(20 * time.Second):
+		}
 	}
 	n.P.Pegnet.DB.Close()
 	n.RO.Close()
